@@ -99,6 +99,16 @@ TEXTS = {
                 "of sub_ontology is diffed against the crate.",
         "design_ref": "DESIGN.md §4 C14", "note": NOTE_COMMON, "technique": TECH,
     },
+    "C18": {
+        "text": "Theorems (Properties/C18.v, 16 statements): (a) the reference report the check compares the crate's report with is, for ALL "
+                "pairs of observations, exactly: added/removed = set differences of term / record ids; a term (record) present in both is "
+                "reported iff name, direct parents, obsolete flag or resolved replacement (name or direct term set) differ; each delta lists "
+                "exactly the added and removed parents (terms) and the old/new values; (b) about the Gallina transcription of comparison.rs, "
+                "for ALL ontologies: added characterised, swapping arguments swaps added with removed, comparing a well-formed ontology with "
+                "itself yields the empty report. The crate's reports for compare(old,new), compare(new,old), compare(old,old) and "
+                "compare(old, reload(old)) are checked against the reference, against the swap, and diffed against the transcription.",
+        "design_ref": "DESIGN.md §4 C18", "note": NOTE_COMMON, "technique": TECH,
+    },
     "C20": {
         "text": "Theorems (Properties/C20.v, about the Gallina transcription, unbounded): parse(show n) = Ok n for EVERY n <= u32::MAX (induction "
                 "over digits, not enumeration); big-endian byte round trip; rendered shape 'HP:' + >= 7 digits; the parser never panics on any "
